@@ -408,7 +408,7 @@ theorem hitS_type_mismatch (c : Clauses) (r : Rule) (k : Key) (h : docType r ≠
 theorem hitOf_local (r : Rule) (k : Key) (l : IP) (hct : docType r = k.ct) (hl : r.loc = .ok l) :
     hitOf r k.ip k.iface = hitS asCodedClauses k r := by
   have hca : isCatchAllWith asCodedClauses r k = false := by
-    unfold isCatchAllWith asCodedClauses caIPsF13 starved catchAllIPs
+    unfold isCatchAllWith asCodedClauses f3Clauses catchAllIPs
     simp [hl]
   unfold hitOf hitS
   rw [hca]
@@ -442,7 +442,7 @@ theorem hitOf_local (r : Rule) (k : Key) (l : IP) (hct : docType r = k.ct) (hl :
 
 /-- What the mapping of family `fam` of a rule without `Local` offers: `none` = invalid. -/
 def caAbs (a4 a6 : Bool) (cidr : Option CIDR) (exts : List IP) (fam : Bool) : Option (List IP) :=
-  if exts.all (fun e => !(isFamilyAllowed a4 a6 (targetFam cidr e))) then
+  if exts.isEmpty then
     (if isFamilyAllowed a4 a6 fam then some [] else none)
   else if (soleFor a4 a6 cidr exts fam).isEmpty then none else some (soleFor a4 a6 cidr exts fam)
 
@@ -450,14 +450,27 @@ theorem catchAllMap_abs (a4 a6 : Bool) (cidr : Option CIDR) (exts : List IP) (fa
     (if (catchAllMap a4 a6 cidr exts fam).valid then mapHit (catchAllMap a4 a6 cidr exts fam) ip m s else none)
       = (caAbs a4 a6 cidr exts fam).map (fun l => Hit.ca l m s) := by
   unfold catchAllMap caAbs
-  rw [starvedAll_eq]
-  by_cases h : (exts.all (fun e => !(isFamilyAllowed a4 a6 (targetFam cidr e)))) = true
+  by_cases h : exts.isEmpty = true
   · simp only [h, if_true]
     cases isFamilyAllowed a4 a6 fam <;> simp [mapHit, pinLookup]
   · simp only [h, if_false]
     by_cases h2 : (soleFor a4 a6 cidr exts fam).isEmpty = true
     · simp [h2]
     · simp [h2, mapHit, pinLookup]
+
+/-- /repo d6a4f83: externals named, every one skipped (`added = false`) ⇒ neither family has a mapping (the rule
+is not registered); the External list empty ⇒ every allowed family is a valid empty catch-all -/
+theorem catchAllMap_starved (a4 a6 : Bool) (cidr : Option CIDR) (exts : List IP) (hne : exts ≠ [])
+    (h : exts.all (fun e => !(isFamilyAllowed a4 a6 (targetFam cidr e))) = true) (fam : Bool) :
+    catchAllMap a4 a6 cidr exts fam = {} := by
+  have hs := starvedAll_eq a4 a6 cidr exts
+  rw [h] at hs
+  simp only [Bool.and_eq_true] at hs
+  have : (soleFor a4 a6 cidr exts fam).isEmpty = true := by cases fam; exact hs.2; exact hs.1
+  have hl : soleFor a4 a6 cidr exts fam = [] := List.isEmpty_iff.mp this
+  unfold catchAllMap
+  have he : exts.isEmpty = false := by cases exts; exact absurd rfl hne; rfl
+  simp [he, hl]
 
 theorem filterMap_isEmpty_of_all_some {α β : Type} (f : α → Option β) (l : List α)
     (h : l.any (fun t => (f t).isNone) = false) : (l.filterMap f).isEmpty = l.isEmpty := by
@@ -474,34 +487,39 @@ theorem tokens_ext (r : Rule) (hv : tokensInvalid r = false) : (extIPs r).isEmpt
   simp only [Bool.or_eq_false_iff] at hv
   exact filterMap_isEmpty_of_all_some tokIP? r.ext hv.2
 
+/-- every External string parsed ⇒ `extIPs r` is as long as the External list as given: the model's test
+`(extIPs r).isEmpty` IS the code's `len(rule.External) == 0` wherever `catchAllMap` is reached -/
+theorem extIPs_length (r : Rule) (hv : tokensInvalid r = false) : (extIPs r).length = r.ext.length := by
+  unfold tokensInvalid at hv
+  simp only [Bool.or_eq_false_iff] at hv
+  have h := hv.2
+  unfold extIPs
+  generalize r.ext = l at h
+  induction l with
+  | nil => rfl
+  | cons t ts ih =>
+    simp only [List.any_cons, Bool.or_eq_false_iff] at h
+    cases t with
+    | ok ip => simp [List.filterMap_cons, tokIP?, ih h.2]
+    | bad => simp [tokIP?] at h
+    | blank => simp [tokIP?] at h
+
 theorem hasCIDR_eq (r : Rule) : hasCIDR r = (cidrOpt r).isSome := by
   unfold cidrOpt hasCIDR; cases r.cidr <;> rfl
 
 theorem caAbs_spec (r : Rule) (k : Key) (hl : r.loc = .none) (hv : tokensInvalid r = false)
     (hce : cidrExcludes (cidrOpt r) k.ip = false) :
     caAbs (allow4 r) (allow6 r) (cidrOpt r) (extIPs r) k.ip.v4
-      = if isFamilyAllowed (allow4 r) (allow6 r) k.ip.v4 then caIPsF13 r k else none := by
+      = if isFamilyAllowed (allow4 r) (allow6 r) k.ip.v4 then catchAllIPs r k else none := by
   have hext := tokens_ext r hv
-  unfold caAbs caIPsF13 starved catchAllIPs
+  unfold caAbs catchAllIPs
   rw [hl, hasCIDR_eq, ← extIPs_eq, ← hext]
-  cases hc : cidrOpt r with
-  | none =>
-    have htf : (fun e : IP => !(isFamilyAllowed (allow4 r) (allow6 r) (targetFam none e)))
-        = (fun e : IP => !netsAllow r e.v4) := by
-      funext e; simp [targetFam, isFamilyAllowed_eq]
-    rw [htf]
-    by_cases hall : ((extIPs r).all (fun e => !netsAllow r e.v4)) = true
-    · simp only [hall, if_true]
-      cases ha : isFamilyAllowed (allow4 r) (allow6 r) k.ip.v4
-      · simp
-      · cases he : (extIPs r).isEmpty <;> simp [he]
-    · simp only [hall, if_false]
-      have hne : (extIPs r).isEmpty = false := by
-        cases he : (extIPs r).isEmpty
-        · rfl
-        · exfalso; apply hall
-          have : extIPs r = [] := List.isEmpty_iff.mp he
-          rw [this]; rfl
+  cases he : (extIPs r).isEmpty with
+  | true => cases isFamilyAllowed (allow4 r) (allow6 r) k.ip.v4 <;> simp
+  | false =>
+    simp only [Bool.false_eq_true, if_false]
+    cases hc : cidrOpt r with
+    | none =>
       cases ha : isFamilyAllowed (allow4 r) (allow6 r) k.ip.v4
       · have : soleFor (allow4 r) (allow6 r) none (extIPs r) k.ip.v4 = [] := by
           unfold soleFor; simp [ha]
@@ -509,28 +527,22 @@ theorem caAbs_spec (r : Rule) (k : Key) (hl : r.loc = .none) (hv : tokensInvalid
       · have : soleFor (allow4 r) (allow6 r) none (extIPs r) k.ip.v4
             = (extIPs r).filter (fun e => e.v4 == k.ip.v4) := by
           unfold soleFor; simp [ha, targetFam]
-        simp [this, hne]
-  | some c =>
-    have hcv : c.v4 = k.ip.v4 := by
-      unfold cidrExcludes at hce; rw [hc] at hce
-      simp only [Bool.not_eq_false'] at hce
-      unfold CIDR.contains at hce
-      simp only [Bool.and_eq_true, beq_iff_eq] at hce
-      exact hce.1
-    have htf : (fun e : IP => !(isFamilyAllowed (allow4 r) (allow6 r) (targetFam (some c) e)))
-        = (fun _ : IP => !(isFamilyAllowed (allow4 r) (allow6 r) k.ip.v4)) := by
-      funext e; simp [targetFam, hcv]
-    rw [htf]
-    cases ha : isFamilyAllowed (allow4 r) (allow6 r) k.ip.v4
-    · simp
-    · have hs : soleFor (allow4 r) (allow6 r) (some c) (extIPs r) k.ip.v4 = extIPs r := by
-        unfold soleFor; simp [ha, targetFam, hcv]
-      cases he : (extIPs r).isEmpty
-      · have : extIPs r ≠ [] := by intro h; rw [h] at he; simp at he
-        have hex : ∃ x, x ∈ extIPs r := List.exists_mem_of_ne_nil _ this
-        simp [hs, he, this, hex]
-      · have : extIPs r = [] := List.isEmpty_iff.mp he
         simp [this]
+    | some c =>
+      have hcv : c.v4 = k.ip.v4 := by
+        unfold cidrExcludes at hce; rw [hc] at hce
+        simp only [Bool.not_eq_false'] at hce
+        unfold CIDR.contains at hce
+        simp only [Bool.and_eq_true, beq_iff_eq] at hce
+        exact hce.1
+      cases ha : isFamilyAllowed (allow4 r) (allow6 r) k.ip.v4
+      · have : soleFor (allow4 r) (allow6 r) (some c) (extIPs r) k.ip.v4 = [] := by
+          unfold soleFor; simp [ha]
+        simp [this]
+      · have hs : soleFor (allow4 r) (allow6 r) (some c) (extIPs r) k.ip.v4 = extIPs r := by
+          unfold soleFor; simp [ha, targetFam, hcv]
+        have : extIPs r ≠ [] := by intro h; rw [h] at he; simp at he
+        simp [hs, he, this]
 
 theorem hitOf_catchAll (r : Rule) (k : Key) (hct : docType r = k.ct) (hl : r.loc = .none)
     (hv : tokensInvalid r = false) :
@@ -558,12 +570,55 @@ theorem hitOf_catchAll (r : Rule) (k : Key) (hct : docType r = k.ct) (hl : r.loc
       · simp
       · simp only [if_true, Bool.true_and]
         show _ = if (asCodedClauses.caIPs r k).isSome = true then some (toCa asCodedClauses k r) else none
-        have : asCodedClauses.caIPs r k = caIPsF13 r k := rfl
+        have : asCodedClauses.caIPs r k = catchAllIPs r k := rfl
         rw [this]
-        cases hq : caIPsF13 r k with
+        cases hq : catchAllIPs r k with
         | none => simp
-        | some l => simp [toCa, this, hq, asCodedClauses]
+        | some l => simp [toCa, this, hq, asCodedClauses, f3Clauses]
     · simp
+
+/-- /repo d6a4f83 (F15 fixed): a starved rule that compiles is not registered. -/
+theorem compileRule_starved (r : Rule) (hs : starved r = true) (o : Option (Nat × CRule))
+    (h : compileRule r = .ok o) : o = none := by
+  unfold starved at hs
+  simp only [Bool.and_eq_true, beq_iff_eq, Bool.not_eq_true'] at hs
+  obtain ⟨⟨⟨hl, hne⟩, hnc⟩, hall⟩ := hs
+  unfold compileRule at h
+  by_cases h3 : effType r = 3
+  · simp [h3] at h
+  · rw [if_neg h3] at h
+    by_cases hin : (!allow4 r && !allow6 r) = true
+    · rw [if_pos hin] at h; injection h with h; exact h.symm
+    · rw [if_neg hin] at h
+      by_cases hv : tokensInvalid r = true
+      · rw [if_pos hv] at h; cases h
+      · rw [if_neg hv] at h
+        injection h with h
+        subst h
+        have hv' : tokensInvalid r = false := by simpa using hv
+        have hc : cidrOpt r = none := by
+          unfold hasCIDR at hnc
+          unfold cidrOpt
+          cases hcc : r.cidr <;> simp [hcc] at hnc ⊢
+        have hex : extIPs r ≠ [] := by
+          intro he
+          have := tokens_ext r hv'
+          rw [he, hne] at this
+          simp at this
+        have hall' : (extIPs r).all (fun e => !(isFamilyAllowed (allow4 r) (allow6 r) (targetFam none e))) = true := by
+          rw [extIPs_eq]
+          have : (fun e : IP => !(isFamilyAllowed (allow4 r) (allow6 r) (targetFam none e)))
+              = (fun e : IP => !netsAllow r e.v4) := by
+            funext e; simp [targetFam, isFamilyAllowed_eq]
+          rw [this]; exact hall
+        have hfm : ∀ fam, famMap r fam = {} := by
+          intro fam
+          unfold famMap
+          rw [hl, hc]
+          exact catchAllMap_starved _ _ _ _ hex hall' fam
+        unfold buildRule
+        rw [hfm true, hfm false]
+        rfl
 
 theorem tokens_loc_bad (r : Rule) (hl : r.loc = .bad) : tokensInvalid r = true := by
   unfold tokensInvalid; simp [hl]
@@ -690,19 +745,9 @@ theorem lookupWith_congr (c c' : Clauses) (rules : List Rule) (k : Key)
   unfold hitS isCatchAllWith toCa
   rw [h1, h2]
 
-/-- B1: without starved rules the F15 clause is the documented one. -/
-theorem asCoded_eq_f3 (rules : List Rule) (k : Key) (h : noStarved rules = true) :
-    lookupWith asCodedClauses rules k = lookupWith f3Clauses rules k := by
-  apply lookupWith_congr
-  intro r hr
-  refine ⟨rfl, ?_⟩
-  have : starved r = false := by
-    unfold noStarved at h
-    have := List.all_eq_true.mp h r hr
-    simpa using this
-  show caIPsF13 r k = catchAllIPs r k
-  unfold caIPsF13
-  simp [this]
+/-- B1: since /repo d6a4f83 (F15 fixed) the as-coded clauses ARE the F3 clauses, for every rule list. -/
+theorem asCoded_eq_f3 (rules : List Rule) (k : Key) :
+    lookupWith asCodedClauses rules k = lookupWith f3Clauses rules k := rfl
 
 theorem find?_all_true {α : Type} (p : α → Bool) (l : List α) (h : ∀ x ∈ l, p x = true) :
     l.find? p = l.head? := by
@@ -820,11 +865,11 @@ theorem f3_eq_documented (rules : List Rule) (k : Key) (h : f3Region rules k = f
     rw [hf]
     rfl
 
-/-- THEOREM B. Outside the two carved-out defects the as-coded reading IS the documentation. -/
-theorem asCoded_eq_documented (rules : List Rule) (k : Key) (hs : noStarved rules = true)
+/-- THEOREM B. Outside the carved-out defect (F3) the as-coded reading IS the documentation. -/
+theorem asCoded_eq_documented (rules : List Rule) (k : Key)
     (hf : f3Region rules k = false) :
     lookupWith asCodedClauses rules k = documented rules k := by
-  rw [asCoded_eq_f3 rules k hs, f3_eq_documented rules k hf]
+  rw [asCoded_eq_f3 rules k, f3_eq_documented rules k hf]
 
 /-- With an interface name in the key and no interface-scoped candidate, the F3 ranking is flat:
 the first candidate wins. -/
